@@ -12,8 +12,10 @@ def q(x, unit=1e-9):
     import math
     if x is None or x != x or math.isinf(x):
         return QCAP
-    v = int(round(abs(x) / unit))
-    return min(v, QCAP)
+    r = abs(x) / unit
+    if r != r or r >= QCAP:
+        return QCAP
+    return int(round(r))
 
 
 def qs(x, unit=1e-6):
@@ -21,8 +23,12 @@ def qs(x, unit=1e-6):
     import math
     if x != x or math.isinf(x):
         return QCAP
-    v = int(round(x / unit))
-    return max(-QCAP, min(QCAP, v))
+    r = x / unit
+    if r != r:
+        return QCAP
+    if abs(r) >= QCAP:
+        return QCAP if r > 0 else -QCAP
+    return int(round(r))
 
 
 class Batch(object):
